@@ -434,6 +434,12 @@ def gen_spline(rng, route="potable", reg0=False, forms=None, tables=None, kind=N
   if rng.random() < 0.3:
     extra = {"k": "form", "name": rng.choice(["polynomial", "constant"]), "p": [rfloat(rng, 0.5, 2.0)]}
     end = {"k": rng.choice(["sum", "product"]), "a": [end, extra]}
+  if route != "api" and rng.random() < 0.2:
+    # trans() of a definition as an end potential (its shifted deriv / deriv2 feed the spline coefficients)
+    if rng.random() < 0.5:
+      end = {"k": "trans", "f": end, "x": rfloat(rng, 0.1, 1.5)}
+    else:
+      start = {"k": "trans", "f": start, "x": rfloat(rng, 0.1, 1.0)}
   if route == "api":
     s0 = ["-inf"]
   else:
@@ -803,3 +809,70 @@ def gen_nested_same_start(rng, reg0=True):
   pos = rng.randrange(len(args))
   args[0], args[pos] = args[pos], args[0]
   return {"k": rng.choice(["sum", "product", "sum"]), "a": args}, X
+
+
+def root_node(rng, r0, variant=None):
+  """A potential whose energy is EXACTLY 0.0 at r0 (exactly representable) while its slope there is not:
+  alone, or as one term / one factor of a modifier tree.  Returns (node, variant)."""
+  c = rng.choice([2.0, 4.0, 0.5, -8.0])
+  poly = {"k": "form", "name": "polynomial", "p": [-c * r0, c]}
+  lj = {"k": "form", "name": "lj", "p": [rfloat(rng, 0.01, 0.5), float(r0)]}     # (sigma/r)**n == 1.0 exactly at r = sigma
+  pos = rng.choice([{"k": "form", "name": "bornmayer", "p": [rfloat(rng, 50.0, 900.0), rfloat(rng, 0.3, 0.9)]},
+                    {"k": "form", "name": "constant", "p": [rfloat(rng, 0.5, 3.0)]},
+                    {"k": "form", "name": "polynomial", "p": [rfloat(rng, 1.0, 3.0), rfloat(rng, 0.1, 1.0)]}])
+  zero = {"k": "form", "name": "zero", "p": []}
+  variants = ["poly", "sum_zero", "lj", "product_root_first", "product_root_last", "product_lj", "product_of_products", "sum_of_product_and_zero"]
+  v = variant or rng.choice(variants)
+  if v == "poly":
+    node = poly
+  elif v == "sum_zero":
+    node = {"k": "sum", "a": [poly, zero]}
+  elif v == "lj":
+    node = lj
+  elif v == "product_root_first":
+    node = {"k": "product", "a": [poly, pos]}
+  elif v == "product_root_last":
+    node = {"k": "product", "a": [pos, poly]}
+  elif v == "product_lj":
+    node = {"k": "product", "a": [pos, lj] if rng.random() < 0.5 else [lj, pos]}
+  elif v == "product_of_products":
+    node = {"k": "product", "a": [{"k": "product", "a": [pos, poly]}, {"k": "form", "name": "constant", "p": [rfloat(rng, 0.5, 2.0)]}]}
+  else:
+    node = {"k": "sum", "a": [{"k": "product", "a": [poly, pos]}, zero]}
+  return node, v
+
+
+ROOT_VARIANTS = ["poly", "sum_zero", "lj", "product_root_first", "product_root_last", "product_lj", "product_of_products", "sum_of_product_and_zero"]
+
+
+def make_huge(rng, model):
+  """Replace one function of a model by one whose values are of order 1e45..1e80 (legitimate for a double, and printed
+  in full by every '%f'-style writer): formats that change behaviour with magnitude are reached.  Returns the key changed."""
+  keys = [k for k in ("embed", "density", "pair") if model.get(k)]
+  key = rng.choice(keys)
+  ent = rng.choice(model[key])
+  e = rng.randint(45, 80)
+  ent[-1] = {"k": "form", "name": "polynomial", "p": [float("%.5ge%d" % (rng.uniform(1, 9) * rng.choice([1, -1]), e)), float("%.5ge%d" % (rng.uniform(1, 9), e - 1))]}
+  return key
+
+
+# parameters that multiply the whole term they belong to (scaling all of them scales the potential: a change of energy unit)
+AMPLITUDES = {"buck": [0, 2], "bornmayer": [0], "coul": [0], "constant": [0], "exponential": [0], "hbnd": [0, 1], "lj": [0],
+              "morse": [2], "sqrt": [0], "tang_toennies": [0, 2, 3, 4], "zero": []}
+
+
+def scale_form(node, e):
+  """Multiply a plain form node by 10**e through its amplitude parameters (None when the form has none)."""
+  name = node.get("name")
+  if node.get("k") != "form":
+    return None
+  if name == "polynomial":
+    idx = range(len(node["p"]))
+  elif name in AMPLITUDES:
+    idx = AMPLITUDES[name]
+  else:
+    return None
+  p = list(node["p"])
+  for i in idx:
+    p[i] = (p[i] * 10.0 ** e) if p[i] != 0 else 0.0
+  return {"k": "form", "name": name, "p": p}
